@@ -4866,6 +4866,15 @@ class Symbol:
                 continue
             sc.resolve_defaults()
 
+        # The value compared below also depends on the symbols that select / imply / set this one (and on the conditions
+        # of those statements): they have to be resolved first as well, or the outcome depends on the definition order.
+        reverse_exprs = [self.rev_dep, self.weak_rev_dep]
+        reverse_exprs += [cond for _, cond, _ in self.rev_values] + [cond for _, cond, _ in self.weak_rev_values]
+        for expr in reverse_exprs:
+            for sc in expr_items(expr):
+                if not sc.is_constant:
+                    sc.resolve_defaults()
+
         # Kconfig default value differs from sdkconfig default value
         if self.str_value != str(self._sdkconfig_value):
             self.kconfig.report.add_record(DefaultValuesArea, sym_or_choice=self)
